@@ -16,6 +16,8 @@ P = {
          "Trusted: z3; hashlib digests themselves (C code) are outside; loop-cut soundness argument stated in evidence.", TECH_E1 + " with a havoc loop cut (inductive step)"),
  "C09": ("Bounded symbolic model checking: CrossHair executes the real write_union/_validate*/read_union code over token streams for every union schema of the stated family with the datum, the hint placement, reader options and disable_tuple_notation symbolic; the written index at every union position is compared with an independent statement of the branch rule, and the read-with-names/write-back closure is checked token for token.",
          "Trusted: CrossHair/z3, token stand-ins (justified by the E1 token contract). Where the statement leaves the branch open (datum conforming to both a record and a non-record branch) nothing is asserted.", TECH_E2),
+ "C10": ("Bounded symbolic model checking: CrossHair executes the real validate/validate_many/_validate*/Writer(validator=True)/write_data code with (a) symbolic conforming data and (b) seeded base data carrying one mutation at a symbolic position with a symbolic wrong-typed replacement or a deleted field; results are compared with an independent conformance predicate written from the property's wording; leaf validators are proved for every int by E1.",
+         "Trusted: CrossHair/z3, token stand-ins. ValidationError text formatting makes CrossHair enumerate formatted values, so int/bytes leaves come from pools including the range extremes (all ints: E1 obligations).", TECH_E2 + "; " + TECH_E1),
 }
 
 NA = {}
